@@ -4,7 +4,7 @@
 //! checkers over abstract copies of the graphs.
 
 mod abs;
-mod gen;
+mod pgen;
 mod oracle;
 mod pipeline;
 mod quiet;
@@ -14,7 +14,7 @@ use std::sync::Mutex;
 use std::sync::atomic::{AtomicUsize, Ordering};
 
 use dfir_lang::diagnostic::Diagnostics;
-use dfir_lang::graph::ops::{OPERATORS, PortListSpec, RangeTrait};
+use dfir_lang::graph::ops::{OPERATORS, PortListSpec};
 use dfir_lang::graph::{DfirGraph, GraphNode, PortIndexValue};
 use dfir_lang::parse::IndexInt;
 use proc_macro2::Span;
@@ -23,7 +23,7 @@ use vcommon::{Args, Reporter, Rng, Tier, Value, hash_of, json};
 use quiet::catch;
 
 use abs::{Abs, Id, abstract_graph, kid};
-use gen::{CATALOGUE, Meta};
+use pgen::{CATALOGUE, Meta};
 use oracle::*;
 use pipeline::*;
 
@@ -116,12 +116,12 @@ fn note_meta(col: &mut Col, m: &Meta) {
 /// Front-end outcomes that are not the subject of the property at hand are only counted.
 fn count_front(col: &mut Col, st: &Staged) {
     match st {
-        Staged::ParseErr(_) => col.count("gen_parse_error"),
-        Staged::BuildPanic(_) => col.count("front_builder_panic"),
-        Staged::BuildErr(_) => col.count("front_rejected_by_builder"),
-        Staged::MergeErr(_) => col.count("front_merge_modules_error"),
-        Staged::ElimPanic { .. } => col.count("front_eliminate_panic"),
-        Staged::AdjacentHandoffs { .. } => col.count("front_adjacent_handoffs"),
+        Staged::ParseErr => col.count("gen_parse_error"),
+        Staged::BuildPanic => col.count("front_builder_panic"),
+        Staged::BuildErr => col.count("front_rejected_by_builder"),
+        Staged::MergeErr => col.count("front_merge_modules_error"),
+        Staged::ElimPanic => col.count("front_eliminate_panic"),
+        Staged::AdjacentHandoffs => col.count("front_adjacent_handoffs"),
         Staged::Partitioned { .. } => col.count("reached_partitioner"),
     }
 }
@@ -494,6 +494,11 @@ fn run_c20(col: &mut Col, family: &str, text: &str, _meta: Option<&Meta>, salt: 
     col.evals += 1;
     col.nontrivial.push(hash_of(&("c20c", text)));
     col.count("serde_round_trips");
+    if let Some(m) = _meta {
+        for o in &m.ops {
+            col.ops_seen.insert(o);
+        }
+    }
     if !diags.is_empty() {
         col.violation("C20|serde|reload-diagnostics", &format!("insert_node_op_insts_all reported {:?} (Dfir::new asserts none)", diags), case);
     }
@@ -656,7 +661,7 @@ fn run_c42(args: &Args, rep: &mut Reporter) {
     let mut texts: Vec<(String, Meta)> = vec![];
     for i in 0..n {
         let mut r = base.fork(0xC42 + i as u64);
-        let p = gen::random_program(&mut r);
+        let p = pgen::random_program(&mut r);
         texts.push((p.text, p.meta));
     }
     let mut ops = BTreeSet::new();
@@ -755,13 +760,13 @@ fn check_catalogue() -> Result<(), String> {
                 _ => None,
             }
         };
-        if let gen::In::Ports(p) = s.inn {
+        if let pgen::In::Ports(p) = s.inn {
             let real = ports(op.ports_inn);
             if real.is_some() && real != Some(p.iter().map(|x| x.to_string()).collect()) {
                 return Err(format!("{}: input ports {:?} vs {:?}", s.name, p, real));
             }
         }
-        if let gen::Out::Ports(p) = s.out {
+        if let pgen::Out::Ports(p) = s.out {
             let real = ports(op.ports_out);
             if real.is_some() && real != Some(p.iter().map(|x| x.to_string()).collect()) {
                 return Err(format!("{}: output ports {:?} vs {:?}", s.name, p, real));
@@ -798,21 +803,22 @@ fn run_graph_prop(args: &Args, rep: &mut Reporter) -> bool {
     let mut exhaustive = false;
     if args.tier != Tier::Miri {
         let mut col = Col::default();
-        let kmax_full = if args.tier == Tier::Thorough { 4 } else { 3 };
+        // complete for k <= 4 in both tiers; thorough adds a 1-in-4 sample of the 117 450 graphs with k = 5
+        let kmax = if args.tier == Tier::Thorough { 5 } else { 4 };
         let mut rng = args.rng().fork(0x7177);
-        for k in 1..=4usize {
+        for k in 1..=kmax {
             let mut count = 0u64;
-            gen::tiny_enumerate(k, &mut |_labels, _edges, text| {
-                if k > kmax_full && !rng.chance(1, 12) {
+            pgen::tiny_enumerate(k, &mut |labels, edges| {
+                if k > 4 && !rng.chance(1, 4) {
                     return;
                 }
                 count += 1;
-                f(&mut col, "tiny", &text, None, salt);
+                f(&mut col, "tiny", &pgen::tiny_text(labels, edges), None, salt);
             });
             col.count_n(&format!("tiny_graphs_k{k}"), count);
         }
         exhaustive = true;
-        rep.extra("tiny_family", json!({"alphabet": gen::TINY_ALPHABET.iter().map(|x| x.0).collect::<Vec<_>>(), "complete_up_to_k": kmax_full, "k4": if kmax_full == 4 { "complete" } else { "sampled 1/12" }}));
+        rep.extra("tiny_family", json!({"alphabet": pgen::TINY_ALPHABET.iter().map(|x| x.0).collect::<Vec<_>>(), "complete_up_to_k": 4, "k5": if kmax == 5 { "sampled 1/4" } else { "not run" }}));
         col.merge_into(rep, &mut BTreeSet::new());
     }
 
@@ -834,7 +840,7 @@ fn run_graph_prop(args: &Args, rep: &mut Reporter) -> bool {
                     let mut col = Col::default();
                     for i in ci * chunk..((ci + 1) * chunk).min(n) {
                         let mut r = base.fork(0xD0F1 + i as u64);
-                        let p = gen::random_program(&mut r);
+                        let p = pgen::random_program(&mut r);
                         note_meta(&mut col, &p.meta);
                         if p.meta.same_op_two_groups {
                             col.count("programs_with_same_op_in_two_access_groups");
@@ -910,12 +916,28 @@ fn main() {
         c42_child(&args);
         return;
     }
+    if args.prop == "TINYCOUNT" {
+        for k in 1..=5usize {
+            let mut n = 0u64;
+            let t = std::time::Instant::now();
+            pgen::tiny_enumerate(k, &mut |_, _| n += 1);
+            println!("k={k} graphs={n} {:?}", t.elapsed());
+        }
+        return;
+    }
+    if args.prop == "CODE" {
+        // debugging aid: print the generated code for a program file
+        let text = std::fs::read_to_string(&args.rest[0]).expect("file");
+        let o = one_shot(&text);
+        println!("{} {:?}\n{}", o.class, o.diags, o.code);
+        return;
+    }
     if args.prop == "SHOW" {
         // debugging aid: print a few generated programs
         let base = args.rng();
         for i in 0..args.budget(5, 5, 5) {
             let mut r = base.fork(0xD0F1 + i as u64);
-            let p = gen::random_program(&mut r);
+            let p = pgen::random_program(&mut r);
             println!("// ---- program {i} {:?}\n{}", p.meta.ops, p.text);
         }
         return;
@@ -935,7 +957,7 @@ fn main() {
         "C18" | "C19" | "C20" => {
             let ex = run_graph_prop(&args, &mut rep);
             let rule = match prop.as_str() {
-                "C18" => "Programs: (a) every arity-respecting wiring of <=3 (thorough: <=4) operators over {source_iter,map,union,tee,defer_tick,for_each}; (b) seeded random DFIR texts over a 74-operator catalogue with nested loop blocks, handoff()/singleton()/optional() references with access groups, unary unions/tees and inserted back edges, rendered in randomised surface form. Each is run through the macro's own stages; every accepted partitioned graph is judged by an independent checker (membership, loop context, pull*-push* tree shape, handoff shape/adjacency, delay markings, subgraph order incl. references/access groups, loop contiguity). Non-trivial = accepted program with at least one handoff or two subgraphs.",
+                "C18" => "Programs: (a) every arity-respecting wiring of <=4 operators (thorough: plus a quarter of the 5-operator ones) over {source_iter,map,union,tee,defer_tick,for_each}; (b) seeded random DFIR texts over a 72-operator catalogue with nested loop blocks, handoff()/singleton()/optional() references with access groups, unary unions/tees and inserted back edges, rendered in randomised surface form. Each is run through the macro's own stages; every accepted partitioned graph is judged by an independent checker (membership, loop context, pull*-push* tree shape, handoff shape/adjacency, delay markings, subgraph order incl. references/access groups, loop contiguity). Non-trivial = accepted program with at least one handoff or two subgraphs.",
                 "C19" => "Same programs as C18 with deliberately inserted back edges (with/without defer_tick/defer_tick_lazy), references, access groups and loop re-entry. The harness builds the same-tick dependency digraph from the flat graph (pipes minus delayed inputs, referee->referencer, borrower->consumer, lower->higher access group, sender->whole loop) and decides cyclicity with Kahn: partition_graph must return Err iff cyclic, the diagnostic's cycle must spell a directed cycle of that digraph, the flat graph handed back must be unchanged, and accepted graphs also pass the C18 checker. Non-trivial = program whose dependency graph is cyclic, or cyclic but for a delay, or has reference/ingress dependencies.",
                 _ => "Same programs as C18. (a) eliminate_extra_unions_tees is compared with an independent contraction of every 1-in-1-out union/tee on an abstract copy (operators, arguments, ports of surviving edges, loops, cached operator-instance ports); (b) 1-3 random edges are rerouted through a ModuleBoundary node with fresh int/path/elided port labels (as an imported module would) and merge_modules must restore exactly the original wiring, or report a port mismatch when one side is relabelled; (c) the partitioned graph is serialised with serde_json, reloaded and completed with insert_node_op_insts_all exactly as Dfir::new does, and must have identical nodes, edges+ports, subgraphs, handoffs+delays, order, loops, references, renderings and (without # references) as_code output up to source locations. Non-trivial = a unary union/tee was removed / a boundary was stitched / a round trip was performed.",
             };
